@@ -32,6 +32,8 @@ func init() {
 		"(*encoding/xml.Encoder).EncodeElement": extEncode,
 		"(*encoding/xml.Encoder).EncodeToken":   extEncodeToken,
 		"archive/zip.NewReader":       extZipNewReader,
+		"(*strings.Builder).WriteString": extBuilderWrite,
+		"(*strings.Builder).String":      extBuilderString,
 		"(*archive/zip.File).Open":    extNonNilOnSuccess,
 		"os.MkdirAll":                 extIOErr,
 		"os.Create":                   extOpenResource,
@@ -508,4 +510,34 @@ func extParseFloat(f *frame, cm *ssa.CallCommon, args []Val, st *State, name str
 	c.assume(st, fmt.Sprintf("(=> (atoi_ok %s) (and (= (itag %s) 0) (= %s (to_real (atoi %s)))))", args[0].T, err.T, v.T, args[0].T))
 	c.assumed["strconv.ParseFloat(s, 64) = atoi(s) for decimal integer strings (atoi_ok), with atoi(itoa(n)) = n; other strings unconstrained"] = true
 	return r
+}
+
+
+// strings.Builder (only builders that are whole local variables, i.e. addressed by a first-class reference):
+// ghost content string per builder; WriteString appends, String returns it.
+func sbHeap(g *Gen) string {
+	h := "G_ghost_sb"
+	g.TE.noteHeapRaw(h, "(Array Ref Str)")
+	return h
+}
+
+func extBuilderWrite(f *frame, cm *ssa.CallCommon, args []Val, st *State, name string, resT types.Type, pos token.Pos) Val {
+	r := f.freshResult(resT, st, name)
+	if args[0].T == "" {
+		return r // a builder embedded in another struct (interior pointer): content not modelled
+	}
+	h := sbHeap(f.c.g)
+	cur := st.Heap(h)
+	st.heaps[h] = f.c.defineHeap(h, fmt.Sprintf("(store %s %s (Str_cat (select %s %s) %s))", cur, args[0].T, cur, args[0].T, args[1].T))
+	f.c.assume(st, fmt.Sprintf("(= (itag %s) 0)", r.Tuple[1].T))
+	f.c.assumed["strings.Builder: WriteString appends its argument to the builder's content and never fails; String returns the content; a new builder is empty"] = true
+	return r
+}
+
+func extBuilderString(f *frame, cm *ssa.CallCommon, args []Val, st *State, name string, resT types.Type, pos token.Pos) Val {
+	if args[0].T == "" {
+		return f.freshResult(resT, st, name)
+	}
+	h := sbHeap(f.c.g)
+	return Val{T: f.c.define(name, SStr, fmt.Sprintf("(select %s %s)", st.Heap(h), args[0].T)), Typ: resT}
 }
